@@ -264,9 +264,42 @@ def r15_6_filters_structure(repo: Repo, rep: Report):
     rep.check("R15.6", ok, m, c[0] if c else ic, "InvariantTestingContext(target_*/excluded_* = matching getter)", "a filter set is filled from the wrong getter")
 
 
+def r15_4_probe_results_reach_a_verdict(repo: Repo, rep: Report):
+    rep.rule("R15.4", "counterexamples recorded by a CounterexampleHandler flow into a test result")
+    m = repo.mod("__main__")
+    n = 0
+    for q, fn in repo.functions("__main__"):
+        for c in body_walk(fn):
+            if not (isinstance(c, ast.Call) and call_name(c) == "CounterexampleHandler"):
+                continue
+            n += 1
+            cx = kwarg(c, "ctx")
+            name = src(cx)
+            # the context's results must be read in this function (verdict) or be the caller-provided test context
+            is_param = name in {a.arg for a in fn.args.args}
+            readers = [a for a in body_walk(fn) if isinstance(a, ast.Attribute) and a.attr in ("solver_outputs", "valid_counterexamples", "invalid_counterexamples") and src(a.value) == name and isinstance(a.ctx, ast.Load)]
+            local_ctor = [v for v in find_assign(fn, name) if isinstance(v, ast.Call) and call_name(v) == "FunctionContext"]
+            ok = bool(readers) and (is_param or not local_ctor) or (bool(readers) and bool(local_ctor))
+            rep.check("R15.4", ok, m, c, f"__main__.{q}: CounterexampleHandler(ctx={name}) - results read here: {len(readers)}", "the handler records solver outputs / counterexamples in a context that nothing reads: an assertion failure found in a target call is printed but cannot make any test FAIL")
+    if n < 2:
+        raise AnalysisError(f"R15.4: only {n} CounterexampleHandler constructions found")
+    # the failing target states are handed to that handler
+    _, cf = repo.fn("__main__._compute_frontier")
+    calls = [c for c in body_walk(cf) if isinstance(c, ast.Call) and last_attr(c) == "handle_assertion_violation"]
+    ok = len(calls) == 1 and src(kwarg(calls[0], "ex")) == "post_ex" and "subcall.output.error" in guard_set(m, calls[0])
+    rep.check("R15.4", ok, m, calls[0] if calls else cf, "failing target states are submitted: handler.handle_assertion_violation(ex=post_ex, ...)", "assertion failures inside targets are not even checked")
+
+
+def r15_8_partial_frontier(repo: Repo, rep: Report):
+    from hsa.rules.c10 import r10_4_cache_published_before_complete
+
+    rep.rule("R10.4", "frontier cache published only when complete (shared with C10)")
+    r10_4_cache_published_before_complete(repo, rep)
+
+
 def r15_7_loop_logs(repo: Repo, rep: Report):
     rep.rule("R10.2", "loop logs of invariant target calls are reported (shared with C10)")
     r10_2_loop_logs_reported(repo, rep)
 
 
-RULES = [r15_1_depth_indexing, r15_2_loop_completeness, r15_3_identity_retention, r15_5_symbolic_transaction, r15_6_filters_structure, r15_7_loop_logs]
+RULES = [r15_1_depth_indexing, r15_2_loop_completeness, r15_3_identity_retention, r15_4_probe_results_reach_a_verdict, r15_5_symbolic_transaction, r15_6_filters_structure, r15_7_loop_logs, r15_8_partial_frontier]
